@@ -20,8 +20,11 @@
 //! It is used by the membership prober and by the integration tests, so the
 //! tests exercise the same code path the cluster does.
 
+#[cfg(qe_verif)]
+use crate::verif::net::SimTcpStream as TcpStream;
 use std::time::Duration;
 use tokio::io::{AsyncReadExt, AsyncWriteExt};
+#[cfg(not(qe_verif))]
 use tokio::net::TcpStream;
 
 /// A parsed HTTP response: status code, headers, and the complete body.
